@@ -84,6 +84,11 @@ pub fn dispatch(rt: &tokio::runtime::Runtime, name: &str, args: &[&str]) -> Opti
                     let h = humphrey::handlers::serve_dir::<()>(dir);
                     show(rt.block_on(PathAwareRequestHandler::serve(&h, req, Arc::new(()), route)))
                 }
+                "serve_file" => {
+                    let path: &'static str = Box::leak(format!("{}/{}", base, route).into_boxed_str());
+                    let h = humphrey::handlers::serve_file::<()>(path);
+                    show(rt.block_on(RequestHandler::serve(&h, req, Arc::new(()))))
+                }
                 "serve_as_file_path" => {
                     let h = humphrey::handlers::serve_as_file_path::<()>(dir);
                     show(rt.block_on(RequestHandler::serve(&h, req, Arc::new(()))))
